@@ -152,6 +152,10 @@ func (it *Interp) intrinsic(fn *ssa.Function, args []Val, c *ssa.CallCommon) (Va
 			}
 			return CInt(64, math.Float64bits(r)), true
 		}
+		if e, ok := it.log2Exp[x.T.ID]; ok && name == "Floor" {
+			// e <= l < e+1  =>  floor(l) = e
+			return it.intToFloat(e, 64, true), true
+		}
 		mode := map[string]string{"Floor": "RTN", "Ceil": "RTP", "Trunc": "RTZ", "Round": "RNA", "RoundToEven": "RNE"}[name]
 		it.stub("math." + name + " = fp.roundToIntegral " + mode)
 		return it.fromFP(cx.App("fp.roundToIntegral "+mode, sym.Sort{K: sym.KBV, W: -64}, it.fp(x)), 64), true
@@ -592,6 +596,28 @@ func (it *Interp) vrtCall(name string, args []Val) Val {
 		label := args[1].(Str).Conc()
 		it.oblige(args[0].(Bool), label, "assert", "")
 		return nil
+	case "AssertNoErr":
+		e := args[0].(Iface)
+		label := args[1].(Str).Conc()
+		if e.T == nil {
+			it.oblige(Bool{C: true}, label, "assert", "")
+			return nil
+		}
+		msg := "<error>"
+		func() {
+			defer func() {
+				if r := recover(); r != nil {
+					if _, ok := r.(*pathEnd); !ok {
+						panic(r)
+					}
+				}
+			}()
+			if s, ok := it.callMethod(e, "Error").(Str); ok {
+				msg = s.Conc()
+			}
+		}()
+		it.oblige(Bool{C: false}, label, "assert", "error: "+msg)
+		return nil
 	case "Fail":
 		label := args[0].(Str).Conc()
 		it.oblige(Bool{C: false}, label, "assert", "")
@@ -999,6 +1025,10 @@ func (it *Interp) log2Contract(x Int) Val {
 	it.addPC(cx.App("fp.lt", sym.BoolSort, lf, e1f))
 	it.addPC(cx.Implies(mantZero, cx.App("fp.eq", sym.BoolSort, lf, ef)))
 	it.addPC(cx.Implies(cx.Not(mantZero), cx.App("fp.gt", sym.BoolSort, lf, ef)))
+	if it.log2Exp == nil {
+		it.log2Exp = map[int]Int{}
+	}
+	it.log2Exp[l.ID] = it.fromTerm(e)
 	return Int{W: 64, T: l}
 }
 
